@@ -16,7 +16,7 @@ def random_cfg(r, big=False):
     return dict(n=n, samples=r.choice([1, 1, 2, 3]), grid=r.choice([3, 4, 5, 7, 11]), style=r.choice(["gauss", "gauss", "peaked", "flat"]),
                 data_seed=r.randrange(1 << 30), outlier_prob=r.choice([0.0, 0.0, 0.01, 0.3]),
                 alpha=(round(math.exp(r.uniform(math.log(0.01), math.log(100.0))), 6) if r.random() < 0.9 else r.choice([1e-10, 1e-6, 1e4, 1e7])),
-                hetero=r.random() < 0.3)
+                hetero=r.random() < 0.3, levels=(None if r.random() < 0.85 else [0.0, -160.0, 95.0]))
 
 
 def history_task(item):
